@@ -494,3 +494,267 @@ Theorem C17_wt_distance_inst :
   <= 20 * t.
 Proof. exact (C17_wt_distance GaussInst.PhiK GaussInst.PhiinvK GaussFull.GaussFacts_inst). Qed.
 Print Assumptions C17_wt_distance_inst.
+
+
+(** ** IEEE 754 binary64: range and sign of [v], [w], [wt] on the very doubles computed,
+    WITHOUT any accuracy assumption on libm.
+
+    The model instantiated on [FloatInst.B64Num exp64 erfc64 pow64 icdf64 : Num binary64]
+    (Flocq's binary64, round-to-nearest-even [+ - * / sqrt], IEEE comparisons; the libm functions
+    are arbitrary parameters).  [B2R 53 1024 x] is the real value of the double [x] (0 for an
+    infinity or a NaN, hence every sign statement comes with a finiteness clause);
+    [is_finite 53 1024 x = true]: neither infinity nor NaN; [is_nan 53 1024 x = false]: not a NaN.
+    The only premises about libm are range / sign facts, written out in each statement:
+      (E)  exp64 y >= 0 for finite y;
+      (C)  erfc64 maps finite doubles to finite doubles in [0,2];
+      (C1) erfc64 y >= 1 for finite y <= 0.
+    Nothing is assumed about how close exp64 / erfc64 are to exp / erfc.
+
+    [C17_wt_range_binary64] (NO premise on libm): [wt x t] is a NaN or a finite double in
+    [0,1] - the final clamp [min(max(value, 0), 1)], with Python's [max(a,b)] = b iff a < b and
+    [min(a,b)] = b iff b < a, maps every non-NaN double (the infinities too) into [0,1] and lets
+    a NaN through; it is a NaN only if the unclamped value is; on the guard branch it is 1.0.
+    [C17_cdf_guard_nonpos_binary64] (C, C1): [cdf z < epsilon] forces [z <= 0]: for z > 0 the
+    argument fl(-z / fl(sqrt 2)) of erfc is a finite double <= 0 (rounding is monotone and 0 is a
+    double; fl(sqrt 2) >= 1 so the quotient cannot overflow), hence erfc >= 1 and
+    cdf = fl(0.5 * erfc) >= 0.5 > 2^-52.
+    [C17_v_nonneg_binary64] (E, C, C1): [v x t >= 0] when finite: guard branch -(x - t) with
+    x - t <= 0 by the previous fact; dividing branch pdf / cdf with pdf = fl(exp64(..) / fl(sqrt tau))
+    >= 0 and cdf >= epsilon > 0.  Finiteness premises: x - t, the argument of exp (dividing branch
+    only) and the result; the finiteness of cdf and pdf is derived.
+    [C17_v_guard_branch_binary64] (C, C1): on the guard branch v is exactly -(x - t), finite, x - t <= 0.
+    [C17_w_guard_branch_binary64] (no premise): on its guard branch w is exactly 1.0 or 0.0.
+    [C17_w_nonneg_binary64_partial] (E, C, C1): w >= 0 GIVEN that v + (x - t), computed in
+    doubles, is >= 0 on the dividing branch.  That hypothesis is the Mills-ratio inequality
+    phi(y)/Phi(y) + y >= 0; for doubles it depends on the accuracy of exp64 / erfc64 and is NOT
+    proved (hence [_partial]); likewise "w <= 1" and the finiteness of v, w ("finite values" of the
+    property text) need bounds on exp64 from above and stay with the run-time monitors. *)
+From Flocq Require Import IEEE754.BinarySingleNaN IEEE754.Binary IEEE754.Bits.
+From OSV Require Import FloatInst.
+From OSV.Lemmas Require FloatOrderL FloatRateL FloatGaussL.
+
+Theorem C17_wt_range_binary64 :
+  forall (exp64 erfc64 pow64 icdf64 : binary64 -> binary64) (x t : binary64),
+  (is_nan 53 1024 (@wt binary64 (B64Num exp64 erfc64 pow64 icdf64) x t) = false ->
+   is_finite 53 1024 (@wt binary64 (B64Num exp64 erfc64 pow64 icdf64) x t) = true
+   /\ 0 <= B2R 53 1024 (@wt binary64 (B64Num exp64 erfc64 pow64 icdf64) x t) <= 1)
+  /\ (@fltb binary64 (B64Num exp64 erfc64 pow64 icdf64)
+        (@fsub binary64 (B64Num exp64 erfc64 pow64 icdf64)
+           (@cdf binary64 (B64Num exp64 erfc64 pow64 icdf64)
+              (@fsub binary64 (B64Num exp64 erfc64 pow64 icdf64) t (@fabs binary64 (B64Num exp64 erfc64 pow64 icdf64) x)))
+           (@cdf binary64 (B64Num exp64 erfc64 pow64 icdf64)
+              (@fsub binary64 (B64Num exp64 erfc64 pow64 icdf64)
+                 (@fneg binary64 (B64Num exp64 erfc64 pow64 icdf64) t) (@fabs binary64 (B64Num exp64 erfc64 pow64 icdf64) x))))
+        (@feps binary64 (B64Num exp64 erfc64 pow64 icdf64)) = true ->
+      @wt binary64 (B64Num exp64 erfc64 pow64 icdf64) x t = @fone binary64 (B64Num exp64 erfc64 pow64 icdf64))
+  /\ (is_nan 53 1024
+        (@fadd binary64 (B64Num exp64 erfc64 pow64 icdf64)
+           (@fdiv binary64 (B64Num exp64 erfc64 pow64 icdf64)
+              (@fadd binary64 (B64Num exp64 erfc64 pow64 icdf64)
+                 (@fmul binary64 (B64Num exp64 erfc64 pow64 icdf64)
+                    (@fsub binary64 (B64Num exp64 erfc64 pow64 icdf64) t (@fabs binary64 (B64Num exp64 erfc64 pow64 icdf64) x))
+                    (@pdf binary64 (B64Num exp64 erfc64 pow64 icdf64)
+                       (@fsub binary64 (B64Num exp64 erfc64 pow64 icdf64) t (@fabs binary64 (B64Num exp64 erfc64 pow64 icdf64) x))))
+                 (@fmul binary64 (B64Num exp64 erfc64 pow64 icdf64)
+                    (@fadd binary64 (B64Num exp64 erfc64 pow64 icdf64) t (@fabs binary64 (B64Num exp64 erfc64 pow64 icdf64) x))
+                    (@pdf binary64 (B64Num exp64 erfc64 pow64 icdf64)
+                       (@fsub binary64 (B64Num exp64 erfc64 pow64 icdf64)
+                          (@fneg binary64 (B64Num exp64 erfc64 pow64 icdf64) t)
+                          (@fabs binary64 (B64Num exp64 erfc64 pow64 icdf64) x)))))
+              (@fsub binary64 (B64Num exp64 erfc64 pow64 icdf64)
+                 (@cdf binary64 (B64Num exp64 erfc64 pow64 icdf64)
+                    (@fsub binary64 (B64Num exp64 erfc64 pow64 icdf64) t (@fabs binary64 (B64Num exp64 erfc64 pow64 icdf64) x)))
+                 (@cdf binary64 (B64Num exp64 erfc64 pow64 icdf64)
+                    (@fsub binary64 (B64Num exp64 erfc64 pow64 icdf64)
+                       (@fneg binary64 (B64Num exp64 erfc64 pow64 icdf64) t)
+                       (@fabs binary64 (B64Num exp64 erfc64 pow64 icdf64) x)))))
+           (@fmul binary64 (B64Num exp64 erfc64 pow64 icdf64)
+              (@vt binary64 (B64Num exp64 erfc64 pow64 icdf64) x t)
+              (@vt binary64 (B64Num exp64 erfc64 pow64 icdf64) x t))) = false ->
+      is_nan 53 1024 (@wt binary64 (B64Num exp64 erfc64 pow64 icdf64) x t) = false).
+Proof. exact FloatGaussL.wt_facts_b64. Qed.
+Print Assumptions C17_wt_range_binary64.
+
+Theorem C17_cdf_guard_nonpos_binary64 :
+  forall (exp64 erfc64 pow64 icdf64 : binary64 -> binary64),
+  (forall y : binary64, is_finite 53 1024 y = true ->
+     is_finite 53 1024 (erfc64 y) = true /\ 0 <= B2R 53 1024 (erfc64 y) <= 2) ->
+  (forall y : binary64, is_finite 53 1024 y = true -> B2R 53 1024 y <= 0 -> 1 <= B2R 53 1024 (erfc64 y)) ->
+  forall z : binary64,
+  is_finite 53 1024 z = true ->
+  @fltb binary64 (B64Num exp64 erfc64 pow64 icdf64)
+    (@cdf binary64 (B64Num exp64 erfc64 pow64 icdf64) z) (@feps binary64 (B64Num exp64 erfc64 pow64 icdf64)) = true ->
+  B2R 53 1024 z <= 0.
+Proof. exact FloatGaussL.cdf_guard_nonpos_b64. Qed.
+Print Assumptions C17_cdf_guard_nonpos_binary64.
+
+Theorem C17_v_nonneg_binary64 :
+  forall (exp64 erfc64 pow64 icdf64 : binary64 -> binary64),
+  (forall y : binary64, is_finite 53 1024 y = true ->
+     is_finite 53 1024 (erfc64 y) = true /\ 0 <= B2R 53 1024 (erfc64 y) <= 2) ->
+  (forall y : binary64, is_finite 53 1024 y = true -> B2R 53 1024 y <= 0 -> 1 <= B2R 53 1024 (erfc64 y)) ->
+  (forall y : binary64, is_finite 53 1024 y = true -> 0 <= B2R 53 1024 (exp64 y)) ->
+  forall x t : binary64,
+  is_finite 53 1024 (@fsub binary64 (B64Num exp64 erfc64 pow64 icdf64) x t) = true ->
+  (@fltb binary64 (B64Num exp64 erfc64 pow64 icdf64)
+     (@cdf binary64 (B64Num exp64 erfc64 pow64 icdf64) (@fsub binary64 (B64Num exp64 erfc64 pow64 icdf64) x t))
+     (@feps binary64 (B64Num exp64 erfc64 pow64 icdf64)) = false ->
+   is_finite 53 1024
+     (@fdiv binary64 (B64Num exp64 erfc64 pow64 icdf64)
+        (@fmul binary64 (B64Num exp64 erfc64 pow64 icdf64)
+           (@fsub binary64 (B64Num exp64 erfc64 pow64 icdf64) x t)
+           (@fsub binary64 (B64Num exp64 erfc64 pow64 icdf64) x t))
+        (@fneg binary64 (B64Num exp64 erfc64 pow64 icdf64) (@ftwo binary64 (B64Num exp64 erfc64 pow64 icdf64)))) = true) ->
+  is_finite 53 1024 (@v binary64 (B64Num exp64 erfc64 pow64 icdf64) x t) = true ->
+  0 <= B2R 53 1024 (@v binary64 (B64Num exp64 erfc64 pow64 icdf64) x t).
+Proof. exact FloatGaussL.v_nonneg_b64. Qed.
+Print Assumptions C17_v_nonneg_binary64.
+
+Theorem C17_v_guard_branch_binary64 :
+  forall (exp64 erfc64 pow64 icdf64 : binary64 -> binary64),
+  (forall y : binary64, is_finite 53 1024 y = true ->
+     is_finite 53 1024 (erfc64 y) = true /\ 0 <= B2R 53 1024 (erfc64 y) <= 2) ->
+  (forall y : binary64, is_finite 53 1024 y = true -> B2R 53 1024 y <= 0 -> 1 <= B2R 53 1024 (erfc64 y)) ->
+  forall x t : binary64,
+  is_finite 53 1024 (@fsub binary64 (B64Num exp64 erfc64 pow64 icdf64) x t) = true ->
+  @fltb binary64 (B64Num exp64 erfc64 pow64 icdf64)
+    (@cdf binary64 (B64Num exp64 erfc64 pow64 icdf64) (@fsub binary64 (B64Num exp64 erfc64 pow64 icdf64) x t))
+    (@feps binary64 (B64Num exp64 erfc64 pow64 icdf64)) = true ->
+  @v binary64 (B64Num exp64 erfc64 pow64 icdf64) x t
+  = @fneg binary64 (B64Num exp64 erfc64 pow64 icdf64) (@fsub binary64 (B64Num exp64 erfc64 pow64 icdf64) x t)
+  /\ B2R 53 1024 (@fsub binary64 (B64Num exp64 erfc64 pow64 icdf64) x t) <= 0
+  /\ is_finite 53 1024 (@v binary64 (B64Num exp64 erfc64 pow64 icdf64) x t) = true.
+Proof. exact FloatGaussL.v_guard_b64. Qed.
+Print Assumptions C17_v_guard_branch_binary64.
+
+Theorem C17_w_guard_branch_binary64 :
+  forall (exp64 erfc64 pow64 icdf64 : binary64 -> binary64) (x t : binary64),
+  @fltb binary64 (B64Num exp64 erfc64 pow64 icdf64)
+    (@cdf binary64 (B64Num exp64 erfc64 pow64 icdf64) (@fsub binary64 (B64Num exp64 erfc64 pow64 icdf64) x t))
+    (@feps binary64 (B64Num exp64 erfc64 pow64 icdf64)) = true ->
+  @w binary64 (B64Num exp64 erfc64 pow64 icdf64) x t
+  = (if @fltb binary64 (B64Num exp64 erfc64 pow64 icdf64) x (@fzero binary64 (B64Num exp64 erfc64 pow64 icdf64))
+     then @fone binary64 (B64Num exp64 erfc64 pow64 icdf64) else @fzero binary64 (B64Num exp64 erfc64 pow64 icdf64))
+  /\ (B2R 53 1024 (@w binary64 (B64Num exp64 erfc64 pow64 icdf64) x t) = 1
+      \/ B2R 53 1024 (@w binary64 (B64Num exp64 erfc64 pow64 icdf64) x t) = 0).
+Proof. exact FloatGaussL.w_guard_b64. Qed.
+Print Assumptions C17_w_guard_branch_binary64.
+
+(** PARTIAL: the second conjunct of the branch hypothesis, [0 <= v + (x - t)] in doubles, is the
+    Mills-ratio fact; it needs the accuracy of libm and is assumed, not proved. *)
+Theorem C17_w_nonneg_binary64_partial :
+  forall (exp64 erfc64 pow64 icdf64 : binary64 -> binary64),
+  (forall y : binary64, is_finite 53 1024 y = true ->
+     is_finite 53 1024 (erfc64 y) = true /\ 0 <= B2R 53 1024 (erfc64 y) <= 2) ->
+  (forall y : binary64, is_finite 53 1024 y = true -> B2R 53 1024 y <= 0 -> 1 <= B2R 53 1024 (erfc64 y)) ->
+  (forall y : binary64, is_finite 53 1024 y = true -> 0 <= B2R 53 1024 (exp64 y)) ->
+  forall x t : binary64,
+  is_finite 53 1024 (@fsub binary64 (B64Num exp64 erfc64 pow64 icdf64) x t) = true ->
+  (@fltb binary64 (B64Num exp64 erfc64 pow64 icdf64)
+     (@cdf binary64 (B64Num exp64 erfc64 pow64 icdf64) (@fsub binary64 (B64Num exp64 erfc64 pow64 icdf64) x t))
+     (@feps binary64 (B64Num exp64 erfc64 pow64 icdf64)) = false ->
+   is_finite 53 1024
+     (@fdiv binary64 (B64Num exp64 erfc64 pow64 icdf64)
+        (@fmul binary64 (B64Num exp64 erfc64 pow64 icdf64)
+           (@fsub binary64 (B64Num exp64 erfc64 pow64 icdf64) x t)
+           (@fsub binary64 (B64Num exp64 erfc64 pow64 icdf64) x t))
+        (@fneg binary64 (B64Num exp64 erfc64 pow64 icdf64) (@ftwo binary64 (B64Num exp64 erfc64 pow64 icdf64)))) = true
+   /\ 0 <= B2R 53 1024
+             (@fadd binary64 (B64Num exp64 erfc64 pow64 icdf64)
+                (@v binary64 (B64Num exp64 erfc64 pow64 icdf64) x t)
+                (@fsub binary64 (B64Num exp64 erfc64 pow64 icdf64) x t))) ->
+  is_finite 53 1024 (@w binary64 (B64Num exp64 erfc64 pow64 icdf64) x t) = true ->
+  0 <= B2R 53 1024 (@w binary64 (B64Num exp64 erfc64 pow64 icdf64) x t).
+Proof. exact FloatGaussL.w_nonneg_partial_b64. Qed.
+Print Assumptions C17_w_nonneg_binary64_partial.
+
+(** Non-vacuity, on concrete doubles.  Stand-ins for libm that satisfy (E), (C), (C1):
+    [exp64 := |x|], [erfc64 := FloatGaussL.step_erfc] (2.0 / 1.0 / 0.0 on negative / zero /
+    positive arguments), [x ** 2 := x * x].
+    wt, dividing branch: x = 0.25, t = 0.5 (the result is strictly inside (0,1));
+    wt, guard branch: x = 5, t = 0.5 (cdf difference 0 < epsilon, result 1.0). *)
+Example C17_wt_range_binary64_example :
+  let N := B64Num b64_abs FloatGaussL.step_erfc (fun x => b64_mult mode_NE x x) (fun x => x) in
+  (is_finite 53 1024 (@wt binary64 N (b64_of_dyadic 1 (-2)) (b64_of_dyadic 1 (-1))) = true
+   /\ 0 <= B2R 53 1024 (@wt binary64 N (b64_of_dyadic 1 (-2)) (b64_of_dyadic 1 (-1))) <= 1)
+  /\ andb (b64_ltb (b64_of_Z 0) (@wt binary64 N (b64_of_dyadic 1 (-2)) (b64_of_dyadic 1 (-1))))
+          (b64_ltb (@wt binary64 N (b64_of_dyadic 1 (-2)) (b64_of_dyadic 1 (-1))) (b64_of_Z 1)) = true
+  /\ @wt binary64 N (b64_of_Z 5) (b64_of_dyadic 1 (-1)) = @fone binary64 N.
+Proof.
+  intros N. split; [|split].
+  - apply (C17_wt_range_binary64 b64_abs FloatGaussL.step_erfc (fun x => b64_mult mode_NE x x) (fun x => x)).
+    vm_compute. reflexivity.
+  - vm_compute. reflexivity.
+  - apply (C17_wt_range_binary64 b64_abs FloatGaussL.step_erfc (fun x => b64_mult mode_NE x x) (fun x => x)).
+    vm_compute. reflexivity.
+Qed.
+
+(** cdf guard: z = -1.5 passes the guard (cdf = 0 < epsilon) and is indeed <= 0 *)
+Example C17_cdf_guard_nonpos_binary64_example :
+  let N := B64Num b64_abs FloatGaussL.step_erfc (fun x => b64_mult mode_NE x x) (fun x => x) in
+  B2R 53 1024 (b64_of_dyadic (-3) (-1)) <= 0.
+Proof.
+  intros N.
+  apply (C17_cdf_guard_nonpos_binary64 b64_abs FloatGaussL.step_erfc (fun x => b64_mult mode_NE x x) (fun x => x)).
+  - exact FloatGaussL.step_erfc_range.
+  - exact FloatGaussL.step_erfc_ge1.
+  - vm_compute. reflexivity.
+  - vm_compute. reflexivity.
+Qed.
+
+(** v, dividing branch: x = 1, t = 0.5 (strictly positive result); guard branch: x = -1, t = 0.5
+    (result exactly 1.5) *)
+Example C17_v_nonneg_binary64_example :
+  let N := B64Num b64_abs FloatGaussL.step_erfc (fun x => b64_mult mode_NE x x) (fun x => x) in
+  0 <= B2R 53 1024 (@v binary64 N (b64_of_Z 1) (b64_of_dyadic 1 (-1)))
+  /\ b64_ltb (b64_of_Z 0) (@v binary64 N (b64_of_Z 1) (b64_of_dyadic 1 (-1))) = true
+  /\ 0 <= B2R 53 1024 (@v binary64 N (b64_of_Z (-1)) (b64_of_dyadic 1 (-1)))
+  /\ (@v binary64 N (b64_of_Z (-1)) (b64_of_dyadic 1 (-1)) = b64_opp (b64_minus mode_NE (b64_of_Z (-1)) (b64_of_dyadic 1 (-1)))
+      /\ B2R 53 1024 (b64_minus mode_NE (b64_of_Z (-1)) (b64_of_dyadic 1 (-1))) <= 0
+      /\ is_finite 53 1024 (@v binary64 N (b64_of_Z (-1)) (b64_of_dyadic 1 (-1))) = true).
+Proof.
+  intros N. split; [|split; [|split]].
+  - apply (C17_v_nonneg_binary64 b64_abs FloatGaussL.step_erfc (fun x => b64_mult mode_NE x x) (fun x => x)
+             FloatGaussL.step_erfc_range FloatGaussL.step_erfc_ge1).
+    + intros y _. apply FloatRateL.b64_abs_nonneg.
+    + vm_compute. reflexivity.
+    + intros _. vm_compute. reflexivity.
+    + vm_compute. reflexivity.
+  - vm_compute. reflexivity.
+  - apply (C17_v_nonneg_binary64 b64_abs FloatGaussL.step_erfc (fun x => b64_mult mode_NE x x) (fun x => x)
+             FloatGaussL.step_erfc_range FloatGaussL.step_erfc_ge1).
+    + intros y _. apply FloatRateL.b64_abs_nonneg.
+    + vm_compute. reflexivity.
+    + intros _. vm_compute. reflexivity.
+    + vm_compute. reflexivity.
+  - apply (C17_v_guard_branch_binary64 b64_abs FloatGaussL.step_erfc (fun x => b64_mult mode_NE x x) (fun x => x)
+             FloatGaussL.step_erfc_range FloatGaussL.step_erfc_ge1).
+    + vm_compute. reflexivity.
+    + vm_compute. reflexivity.
+Qed.
+
+(** w: guard branch at x = -1, t = 0.5 (w = 1.0); dividing branch at x = 1, t = 0.5, where the
+    assumed fact 0 <= v + (x - t) holds (sign bit of the computed double) and w > 0 *)
+Example C17_w_binary64_example :
+  let N := B64Num b64_abs FloatGaussL.step_erfc (fun x => b64_mult mode_NE x x) (fun x => x) in
+  B2R 53 1024 (@w binary64 N (b64_of_Z (-1)) (b64_of_dyadic 1 (-1))) = 1
+  /\ 0 <= B2R 53 1024 (@w binary64 N (b64_of_Z 1) (b64_of_dyadic 1 (-1)))
+  /\ b64_ltb (b64_of_Z 0) (@w binary64 N (b64_of_Z 1) (b64_of_dyadic 1 (-1))) = true.
+Proof.
+  intros N. split; [|split].
+  - assert (G : @fltb binary64 N (@cdf binary64 N (@fsub binary64 N (b64_of_Z (-1)) (b64_of_dyadic 1 (-1))))
+                  (@feps binary64 N) = true) by (vm_compute; reflexivity).
+    destruct (C17_w_guard_branch_binary64 b64_abs FloatGaussL.step_erfc (fun x => b64_mult mode_NE x x) (fun x => x)
+                (b64_of_Z (-1)) (b64_of_dyadic 1 (-1)) G) as (E & _).
+    fold N in E. rewrite E.
+    replace (@fltb binary64 N (b64_of_Z (-1)) (@fzero binary64 N)) with true by (vm_compute; reflexivity).
+    exact FloatOrderL.b64_one_val.
+  - apply (C17_w_nonneg_binary64_partial b64_abs FloatGaussL.step_erfc (fun x => b64_mult mode_NE x x) (fun x => x)
+             FloatGaussL.step_erfc_range FloatGaussL.step_erfc_ge1).
+    + intros y _. apply FloatRateL.b64_abs_nonneg.
+    + vm_compute. reflexivity.
+    + intros _. split; [vm_compute; reflexivity|].
+      apply FloatOrderL.b64_sign_nonneg. vm_compute. reflexivity.
+    + vm_compute. reflexivity.
+  - vm_compute. reflexivity.
+Qed.
